@@ -500,6 +500,10 @@ func (rule *overlappingFieldsCanBeMergedRule) getFieldsAndFragmentNames(parentTy
 				if parentType, ok := parentType.(*Interface); ok && parentType != nil {
 					fieldDef, _ = parentType.Fields()[fieldName]
 				}
+				if fieldDef == nil && fieldName == TypeNameMetaFieldDef.Name && parentType != nil {
+					// __typename is selectable on every composite type and has a response shape too
+					fieldDef = TypeNameMetaFieldDef
+				}
 
 				responseName := fieldName
 				if selection.Alias != nil {
